@@ -22,6 +22,7 @@
 import Proofs.GenKernels
 import Proofs.GenConv
 import Proofs.GenFma
+import Proofs.GenGob
 
 namespace Decimal.CGenK
 
@@ -104,6 +105,34 @@ theorem fma_eq (z x y u : Dec) (su a : Bool) (ha : (su || a) = su) (hu : su = tr
           K.form.toNat K.acc z.prec z.mode.toNat z.neg z.acc z.form.toNat
         fin { K with prec := if g.fresh then g.z0_prec else g.zPrec } :=
   GenFma.fma_eq z x y u su a ha hu
+
+/-! ### `GobDecode` (regenerated validation and assignment logic) -/
+
+/-- **gobDecode_eq.** `GobDecode` as regenerated from decimal_marsh.go IS the model's `gobDecode`, for every payload:
+    empty payload (receiver reset), version byte, both length checks, the attribute byte (`mode = b>>5 & 7`,
+    `acc = (b>>3 & 3) − 1` in int8, `form = b>>1 & 3`, sign bit) and its validation, the exponent field read as int32,
+    each validation of the decoded mantissa (non-empty, top word ≥ 10^18, no word ≥ 10^19 — the range loop —, digit
+    count minus trailing zeros within the transmitted precision, in wrapping uint64), "nothing is touched before
+    everything is validated", the assignments, and a non-zero receiver precision and mode restored through
+    `SetPrec`. `outcome = 3` is the error return. The hypotheses say that the payload consists of bytes and fits in
+    memory, and that a number has no more trailing zeros than digits (`trailingZeros_lt_ndigits`). -/
+theorem gobDecode_eq (z : Dec) (buf : List Nat)
+    (hB : buf.getD 1 0 < 256)
+    (hE : ofBE ((buf.drop 6).take 4) < 4294967296)
+    (hL : (GenGob.wsOf buf).length * 19 < 18446744073709551616)
+    (hT : trailingZeros (natOf (GenGob.wsOf buf)) ≤ (GenGob.wsOf buf).length * 19) :
+    let g := Gen.Facts.GobDecode buf.length (buf.headD 0) (buf.getD 1 0) (ofBE ((buf.drop 2).take 4))
+      (ofBE ((buf.drop 6).take 4)) (GenGob.wsOf buf).length ((GenGob.wsOf buf).getLast?.getD 0)
+      ((GenGob.wsOf buf).any (· ≥ B)) (trailingZeros (natOf (GenGob.wsOf buf)))
+      z.prec z.mode.toNat z.acc z.form.toNat z.neg z.exp
+    let z' : Dec :=
+      { z with prec := g.zPrec, mode := GenFacts.modeOf g.zMode, acc := g.zAcc, form := GenFacts.formOf g.zForm, neg := g.zNeg, exp := g.zExp,
+               mant := if buf.isEmpty then 0 else if g.zForm = 1 then natOf (GenGob.wsOf buf) else z.mant,
+               len := if buf.isEmpty then 0 else if g.zForm = 1 then (GenGob.wsOf buf).length else z.len }
+    gobDecode z buf =
+      if g.outcome = 3 then none
+      else if g.tail = 1 then some (setPrec z' z.prec) else some z' :=
+  GenGob.gobDecode_eq z buf hB hE hL hT
 
 /-! ### `Sqrt`: prologue, NaN, special operands, exponent parity and halving -/
 
@@ -191,6 +220,7 @@ private def same (a b : Except String WDec) : Bool := toString (repr a) == toStr
 #print axioms abs_eq
 #print axioms fma_eq
 #print axioms sqrt_eq
+#print axioms gobDecode_eq
 #print axioms setInt64_args
 #print axioms setUint64_args
 #print axioms newDecimal_args
